@@ -240,6 +240,20 @@ Spec == Init /\ [][Next]_vars
 FairSpec == Spec /\ WF_vars(Next)
 
 ---------------------------------------------------------------------------
+(* Reachability witnesses (vacuity guards, harness/controls.py): each of    *)
+(* these "invariants" MUST be violated on the family named in the control;  *)
+(* otherwise the invariants whose antecedent it is would hold vacuously.    *)
+Never_Solution      == pc # "solution"
+Never_Done          == pc # "done"
+Never_CapacityError == pc # "CapacityError"
+Never_Disabled      == \A k \in 1..Len(ne) : \A q \in 1..Len(ne[k]) : ne[k][q]
+Never_Incumbent     == best = << >>
+Never_Backtrack     == stats[10] = 0
+Never_ShavingShaves == stats[4] = 0
+Never_PassFails     == bcst # 0
+Never_ThreeLevels   == Len(doms) < 3
+
+---------------------------------------------------------------------------
 (* Properties of the design, checked exhaustively on the families           *)
 Sols == Solutions(P)
 ObjOf(x) == x[ObjDom] + OffOf(P, P.cfg.var)
